@@ -473,10 +473,24 @@ pixman_transform_init_scale (struct pixman_transform *t,
     t->matrix[2][2] = F (1);
 }
 
-static pixman_fixed_t
-fixed_inverse (pixman_fixed_t x)
+/* 1 / x in 16.16; FALSE when it is not representable (|x| <= 2 raw units) */
+static pixman_bool_t
+fixed_inverse (pixman_fixed_t x, pixman_fixed_t *inverse)
 {
-    return (pixman_fixed_t) ((((pixman_fixed_48_16_t) F (1)) * F (1)) / x);
+    pixman_fixed_48_16_t v = (((pixman_fixed_48_16_t) F (1)) * F (1)) / x;
+
+    if (v > pixman_max_fixed_48_16 || v < pixman_min_fixed_48_16)
+	return FALSE;
+
+    *inverse = (pixman_fixed_t) v;
+    return TRUE;
+}
+
+/* -x overflows for the most negative fixed point number */
+static force_inline pixman_bool_t
+fixed_negation_overflows (pixman_fixed_t x)
+{
+    return (pixman_fixed_48_16_t) x == pixman_min_fixed_48_16;
 }
 
 PIXMAN_EXPORT pixman_bool_t
@@ -499,8 +513,12 @@ pixman_transform_scale (struct pixman_transform *forward,
     
     if (reverse)
     {
-	pixman_transform_init_scale (&t, fixed_inverse (sx),
-	                             fixed_inverse (sy));
+	pixman_fixed_t isx, isy;
+
+	if (!fixed_inverse (sx, &isx) || !fixed_inverse (sy, &isy))
+	    return FALSE;
+
+	pixman_transform_init_scale (&t, isx, isy);
 	if (!pixman_transform_multiply (reverse, reverse, &t))
 	    return FALSE;
     }
@@ -529,6 +547,9 @@ pixman_transform_rotate (struct pixman_transform *forward,
                          pixman_fixed_t           s)
 {
     struct pixman_transform t;
+
+    if (fixed_negation_overflows (s))
+	return FALSE;
 
     if (forward)
     {
@@ -579,6 +600,9 @@ pixman_transform_translate (struct pixman_transform *forward,
 
     if (reverse)
     {
+	if (fixed_negation_overflows (tx) || fixed_negation_overflows (ty))
+	    return FALSE;
+
 	pixman_transform_init_translate (&t, -tx, -ty);
 
 	if (!pixman_transform_multiply (reverse, reverse, &t))
